@@ -24,7 +24,7 @@ use std::time::{Duration, Instant};
 #[derive(Clone, Copy, Debug, PartialEq, Eq, Hash, PartialOrd, Ord)]
 pub enum Phase { Created, OfferMade, RemoteOfferSet, Checking, IceConnected, DtlsHandshaking, Connected, ChannelsOpen, MediaFlowing, Renegotiating }
 #[derive(Clone, Copy, Debug, PartialEq, Eq, Hash, PartialOrd, Ord)]
-pub enum Event { Close, CloseTwice, Drop, PeerCloseNotify, PeerClose, PeerAbort, PeerShutdown, PeerShutdownAck, IceStop, PeerVanish, BlockedSenderClose, BlockedSenderVanish, CloseChannelTwice, CloseChannelThenClose }
+pub enum Event { Close, CloseTwice, Drop, PeerCloseNotify, PeerClose, PeerAbort, PeerShutdown, PeerShutdownAck, IceStop, PeerVanish, BlockedSenderClose, BlockedSenderVanish, BlockedSenderAbort, BlockedSenderShutdown, BlockedSenderShutdownAck, BlockedSenderHeartbeat, BlockedSenderCloseNotify, CloseChannelTwice, CloseChannelThenClose }
 
 const PHASES: &[(Phase, &str)] = &[(Phase::Created, "created"), (Phase::OfferMade, "offerMade"), (Phase::RemoteOfferSet, "remoteOfferSet"),
     (Phase::Checking, "checking"), (Phase::IceConnected, "iceConnected"), (Phase::DtlsHandshaking, "dtlsHandshaking"),
@@ -33,7 +33,8 @@ const EVENTS: &[(Event, &str)] = &[(Event::Close, "close"), (Event::CloseTwice, 
     (Event::PeerCloseNotify, "peerCloseNotify"), (Event::PeerClose, "peerClose"), (Event::PeerAbort, "peerAbort"),
     (Event::PeerShutdown, "peerShutdown"), (Event::PeerShutdownAck, "peerShutdownAck"), (Event::IceStop, "iceStop"),
     (Event::PeerVanish, "peerVanish"), (Event::BlockedSenderClose, "blockedSenderClose"),
-    (Event::BlockedSenderVanish, "blockedSenderVanish"), (Event::CloseChannelTwice, "closeChannelTwice"), (Event::CloseChannelThenClose, "closeChannelThenClose")];
+    (Event::BlockedSenderVanish, "blockedSenderVanish"), (Event::BlockedSenderAbort, "blockedSenderAbort"), (Event::BlockedSenderShutdown, "blockedSenderShutdown"),
+    (Event::BlockedSenderShutdownAck, "blockedSenderShutdownAck"), (Event::BlockedSenderHeartbeat, "blockedSenderHeartbeat"), (Event::BlockedSenderCloseNotify, "blockedSenderCloseNotify"), (Event::CloseChannelTwice, "closeChannelTwice"), (Event::CloseChannelThenClose, "closeChannelThenClose")];
 fn phase_name(p: Phase) -> &'static str { PHASES.iter().find(|x| x.0 == p).unwrap().1 }
 fn event_name(e: Event) -> &'static str { EVENTS.iter().find(|x| x.0 == e).unwrap().1 }
 
@@ -71,7 +72,7 @@ impl Scen {
             match e {
                 Event::PeerCloseNotify | Event::PeerAbort | Event::PeerShutdown | Event::PeerShutdownAck => {
                     if self.mode != Mode::WebRtc || !matches!(self.phase, Phase::ChannelsOpen | Phase::MediaFlowing | Phase::Renegotiating) { return false; } }
-                Event::BlockedSenderClose | Event::BlockedSenderVanish | Event::CloseChannelTwice | Event::CloseChannelThenClose => { if self.mode != Mode::WebRtc || self.audio_only || self.phase != Phase::ChannelsOpen || self.events.len() > 1 { return false; } }
+                Event::BlockedSenderClose | Event::BlockedSenderVanish | Event::BlockedSenderAbort | Event::BlockedSenderShutdown | Event::BlockedSenderShutdownAck | Event::BlockedSenderHeartbeat | Event::BlockedSenderCloseNotify | Event::CloseChannelTwice | Event::CloseChannelThenClose => { if self.mode != Mode::WebRtc || self.audio_only || self.phase != Phase::ChannelsOpen || self.events.len() > 1 { return false; } }
                 // direct modes have no liveness mechanism (ICE consent checks run in WebRTC mode only): a silent peer is by design not an event there
                 Event::PeerVanish | Event::PeerClose => { if !connected || self.events.len() > 1 || self.mode != Mode::WebRtc { return false; } }
                 Event::Drop => { if self.events.len() > 1 { return false; } }
@@ -149,6 +150,19 @@ async fn timed<F: std::future::Future<Output = bool>>(f: F, limit: Duration) -> 
     match tokio::time::timeout(limit, f).await { Err(_) => 'p', Ok(true) => 'o', Ok(false) => 'e' }
 }
 
+/// the blocked-sender family: `send_data` calls parked in SCTP flow control when the event hits
+fn is_blocked(ev: Event) -> bool {
+    matches!(ev, Event::BlockedSenderClose | Event::BlockedSenderVanish | Event::BlockedSenderAbort | Event::BlockedSenderShutdown
+        | Event::BlockedSenderShutdownAck | Event::BlockedSenderHeartbeat | Event::BlockedSenderCloseNotify)
+}
+/// … of which these keep the peer alive (it keeps acknowledging, the senders park again and again) and end
+/// the association from inside the SCTP run loop / the DTLS layer
+fn blocked_peer_event(ev: Event) -> Option<Event> {
+    match ev {
+        Event::BlockedSenderAbort => Some(Event::PeerAbort), Event::BlockedSenderShutdown => Some(Event::PeerShutdown),
+        Event::BlockedSenderShutdownAck => Some(Event::PeerShutdownAck), Event::BlockedSenderCloseNotify => Some(Event::PeerCloseNotify), _ => None }
+}
+
 async fn inject(ev: Event, x: &PeerConnection, y: &PeerConnection) -> Result<(), String> {
     match ev {
         Event::Close => { x.close(); }
@@ -171,7 +185,7 @@ async fn inject(ev: Event, x: &PeerConnection, y: &PeerConnection) -> Result<(),
             t.close_data_channel(id).await.map_err(|e| e.to_string())?;
             if ev == Event::CloseChannelTwice { t.close_data_channel(id).await.map_err(|e| e.to_string())?; } else { x.close(); }
         }
-        Event::Drop | Event::BlockedSenderClose | Event::BlockedSenderVanish => unreachable!(),
+        Event::Drop | Event::BlockedSenderClose | Event::BlockedSenderVanish | Event::BlockedSenderAbort | Event::BlockedSenderShutdown | Event::BlockedSenderShutdownAck | Event::BlockedSenderHeartbeat | Event::BlockedSenderCloseNotify => unreachable!(),
     }
     Ok(())
 }
@@ -189,10 +203,14 @@ pub async fn exec(sc: &Scen) -> Outcome {
 async fn exec_once(sc: &Scen, x_runtime: Option<tokio::runtime::Handle>) -> (Outcome, Option<Pair>) {
     let mut out = Outcome::default();
     let cfg = sc.cfg();
-    let vanish = sc.events.contains(&Event::PeerVanish) || sc.events.contains(&Event::PeerClose) || sc.events.contains(&Event::BlockedSenderClose) || sc.events.contains(&Event::BlockedSenderVanish);
+    let blocked_ev = sc.events.iter().copied().find(|e| is_blocked(*e));
+    let hb = blocked_ev == Some(Event::BlockedSenderHeartbeat);
+    let vanish = sc.events.contains(&Event::PeerVanish) || sc.events.contains(&Event::PeerClose) || blocked_ev.is_some();
     let keep = x_runtime.is_some();
-    let knobs = Knobs { ice_disconnect_threshold: Some(Duration::from_millis(1200)), ice_disconnect_grace: Some(Duration::from_millis(300)),
-        ice_connection_timeout: Some(Duration::from_secs(30)), sctp_max_buffered: if sc.events.contains(&Event::BlockedSenderClose) || sc.events.contains(&Event::BlockedSenderVanish) { Some(16 * 1024) } else { None },
+    // heartbeat variant: the SCTP layer must notice the dead peer first (500 ms x 3), not ICE
+    let knobs = Knobs { ice_disconnect_threshold: Some(Duration::from_millis(if hb { 20_000 } else { 1200 })), ice_disconnect_grace: Some(Duration::from_millis(300)),
+        ice_connection_timeout: Some(Duration::from_secs(30)), sctp_max_buffered: if blocked_ev.is_some() { Some(16 * 1024) } else { None },
+        sctp_heartbeat: if hb { Some((Duration::from_millis(500), 3, 3)) } else { None },
         p_runtime: x_runtime.clone() };
     let mut p = Pair::create(cfg, &knobs);
     out.has_app = cfg.mix.has_data();
@@ -289,24 +307,38 @@ async fn exec_once(sc: &Scen, x_runtime: Option<tokio::runtime::Handle>) -> (Out
                 out.pre = snapshot(&x);
                 if sc.events == [Event::Drop] {
                     dropped = true;
-                } else if sc.events == [Event::BlockedSenderClose] || sc.events == [Event::BlockedSenderVanish] {
-                    // the peer goes silent; two senders on DIFFERENT channels fill the small send buffer and park
-                    // in SCTP flow control (same-channel sends would serialise on the channel's send lock); the
-                    // channel's `recv()` is pending too. Then close() — or nothing (the ICE-disconnect grace
-                    // expiry must release them).
-                    y.ice_transport().stop();
+                } else if let Some(bev) = blocked_ev {
+                    // Two senders on DIFFERENT channels (same-channel sends would serialise on the channel's send
+                    // lock) push 60 KB messages through a 16 KB send buffer: each is parked in SCTP flow control
+                    // practically all the time; the channel's `recv()` is pending too. Then the event:
+                    //  * close(), or the peer goes silent (ICE-disconnect grace expiry / SCTP heartbeat timeout must
+                    //    release them) — the peer is silenced BEFORE the senders start, they park for good;
+                    //  * the association is ended from inside the SCTP run loop (peer ABORT / SHUTDOWN /
+                    //    SHUTDOWN-ACK) or by DTLS (close_notify) — the peer stays alive and keeps acknowledging,
+                    //    the senders send until they get an error.
+                    let peer_ev = blocked_peer_event(bev);
+                    if peer_ev.is_none() { y.ice_transport().stop(); }
                     let second = x.create_data_channel("second", Some(rustrtc::transports::sctp::DataChannelConfig { negotiated: Some(40), ..Default::default() })).map_err(|e| e.to_string())?;
+                    // the live peer needs the negotiated twin of the second channel
+                    let twin = if peer_ev.is_some() { Some(y.create_data_channel("second", Some(rustrtc::transports::sctp::DataChannelConfig { negotiated: Some(40), ..Default::default() })).map_err(|e| e.to_string())?) } else { None };
                     let ids = [chans[0].id, second.id];
                     let done = Arc::new(AtomicUsize::new(0));
                     let mut senders = vec![];
                     for id in ids {
                         let x2 = x.clone(); let d2 = done.clone();
-                        senders.push(tokio::spawn(async move { let big = vec![7u8; 60_000]; for _ in 0..50 { if x2.send_data(id, &big).await.is_err() { break; } } d2.fetch_add(1, Ordering::SeqCst); }));
+                        senders.push(tokio::spawn(async move { let big = vec![7u8; 60_000]; for _ in 0..100_000 { if x2.send_data(id, &big).await.is_err() { break; } } d2.fetch_add(1, Ordering::SeqCst); }));
                     }
-                    tokio::time::sleep(Duration::from_millis(700)).await;
+                    tokio::time::sleep(Duration::from_millis(if peer_ev.is_some() { 400 } else { 700 })).await;
                     if done.load(Ordering::SeqCst) != 0 { out.notes.push(format!("senders-not-blocked:{}", done.load(Ordering::SeqCst))); }
+                    // heartbeat variant: a SACK within the last 30 s counts as proof of life (hard-coded in
+                    // send_heartbeat); the peer is silent from here on, forget the SACKs of the set-up phase
+                    if hb { if let Some(t) = x.verif_lc_sctp_transport() { t.verif_lc_forget_last_sack(); } }
                     let t0 = Instant::now();
-                    let bound = if sc.events == [Event::BlockedSenderClose] { x.close(); Duration::from_secs(3) } else { Duration::from_secs(8) };
+                    let bound = match bev {
+                        Event::BlockedSenderClose => { x.close(); Duration::from_secs(3) }
+                        Event::BlockedSenderVanish | Event::BlockedSenderHeartbeat => Duration::from_secs(8),
+                        _ => { inject(peer_ev.unwrap(), &x, &y).await?; Duration::from_secs(4) }
+                    };
                     let mut worst = 0u128;
                     for h in senders {
                         let left = bound.saturating_sub(t0.elapsed());
@@ -314,7 +346,7 @@ async fn exec_once(sc: &Scen, x_runtime: Option<tokio::runtime::Handle>) -> (Out
                     }
                     out.parked = 2 - done.load(Ordering::SeqCst).min(2);
                     out.blocked_send_ms = Some(worst);
-                    drop(second);
+                    drop(second); drop(twin);
                 } else if sc.events.len() == 2 {
                     let (e1, e2) = (sc.events[0], sc.events[1]);
                     let (x1, y1, x2, y2) = (x.clone(), y.clone(), x.clone(), y.clone());
@@ -424,7 +456,7 @@ fn oracles(sc: &Scen, o: &Outcome) -> Vec<(String, String)> {
         if app_closed && c.first() == Some(&'o') { f.push((format!("call:{cls}:send_data-ok-after-close"), o.calls.clone())); }
     }
     if let Some(ms) = o.blocked_send_ms {
-        let bound = if sc.events == [Event::BlockedSenderVanish] { 7000 } else { 2000 };
+        let bound = if sc.events == [Event::BlockedSenderVanish] || sc.events == [Event::BlockedSenderHeartbeat] { 7000 } else if sc.events == [Event::BlockedSenderClose] { 2000 } else { 3000 };
         if ms > bound { f.push((format!("hang:{cls}:blocked-sender-not-woken"), format!("slowest parked send returned after {} ms ({} still parked)", if ms == u128::MAX { "never".to_string() } else { ms.to_string() }, o.parked))); }
     }
     f
@@ -443,7 +475,7 @@ fn scenarios(thorough: bool) -> Vec<Scen> {
         use Event::*; use Phase::*;
         for (ph, evs) in [(Created, vec![Close, Drop]), (OfferMade, vec![Close]), (RemoteOfferSet, vec![Close]), (Checking, vec![Close, IceStop, Drop]),
             (IceConnected, vec![Close, Drop]), (DtlsHandshaking, vec![Close, IceStop, Drop]), (Connected, vec![Close, PeerClose]),
-            (ChannelsOpen, vec![Close, CloseTwice, Drop, PeerCloseNotify, PeerClose, PeerAbort, PeerShutdown, PeerShutdownAck, IceStop, PeerVanish, BlockedSenderClose, BlockedSenderVanish, CloseChannelTwice, CloseChannelThenClose]),
+            (ChannelsOpen, vec![Close, CloseTwice, Drop, PeerCloseNotify, PeerClose, PeerAbort, PeerShutdown, PeerShutdownAck, IceStop, PeerVanish, BlockedSenderClose, BlockedSenderVanish, BlockedSenderAbort, BlockedSenderShutdown, BlockedSenderShutdownAck, BlockedSenderHeartbeat, BlockedSenderCloseNotify, CloseChannelTwice, CloseChannelThenClose]),
             (MediaFlowing, vec![Close, PeerAbort]), (Renegotiating, vec![Close, PeerCloseNotify])] {
             for e in evs { v.push(s(Mode::WebRtc, ph, &[e])); }
         }
